@@ -18,7 +18,10 @@ RULE = ('random files (1-5 dimensions incl. length-1 and unlimited, 1-6 variable
         'integer tokens in every cell) x selectors over a random subset of dimensions in random keyword '
         'order: positive/negative ints, slices with None/negative/out-of-range bounds and steps +-1,+-2,3 '
         '(empty and reversed included), index lists with repeats and negatives, 2-3 equal-length lists (zipped), '
-        'plus a malformed stream (unknown dimension, index out of range, unequal list lengths, zero step); '
+        'plus a malformed stream (unknown dimension, index out of range, unequal list lengths, zero step); the string front end '
+        'slice_dim (dim,i / dim,a,b / dim,a,b,stride incl. None, negative and reversed ranges) against the same model; IOAPI files '
+        'through ioapi_base.sliceDimensions (windows, index list next to an integer, uneven index lists along TSTEP) against '
+        'numpy.take on the source arrays, TFLAG included; '
         'non-trivial = some variable has a selected dimension and another does not, or lists are zipped')
 ASSUMPTIONS = ['numpy basic/advanced indexing and masked-array assignment behave as the orthogonal model says '
                '(exercised, not proved)']
@@ -54,6 +57,12 @@ def _case(rng, malformed=False):
         for n in chosen:
             if n not in zk:
                 sels.append([n, _sel(rng, dl[n], rng.choice(['int', 'slice']))])
+        rest = [n for n in names if n not in zk and n not in chosen]
+        if rest and rng.random() < 0.6:
+            # an integer next to the index lists (variables that have only one of the listed dimensions see an
+            # ordinary list + integer selection)
+            n = rng.choice(rest)
+            sels.append([n, _sel(rng, dl[n], 'int')])
     else:
         nl = 0
         for n in chosen:
@@ -80,9 +89,60 @@ def _case(rng, malformed=False):
     return dict(spec=spec, sels=sels)
 
 
+def _mixed_case(rng):
+    """pointwise lists plus an integer on a file where some variables have only ONE of the listed dimensions, the
+    integer dimension and an untouched dimension in between (numpy would move the list axis to the front)"""
+    names = ['t', 'z', 'y', 'x']
+    dl = {n: rng.randint(2, 4) for n in names}
+    dims = [[n, dl[n], n == 't' and rng.random() < 0.3] for n in names]
+    shapes = [['t', 'z', 'y', 'x'], ['t', 'z', 'y'], ['t', 'z', 'x'], ['z', 't', 'x'], ['y', 'x'], ['t', 'y'], ['z']]
+    rng.shuffle(shapes)
+    vs = [pfile._mkvar(rng, 'V%d' % i, vd, dl, i, rng.random() < 0.3) for i, vd in enumerate(shapes[:rng.randint(3, 6)])]
+    spec = dict(dims=dims, vars=vs, attrs=[])
+    ln = rng.randint(1, 4)
+    lists = rng.choice([['y', 'x'], ['y', 'x'], ['z', 'x'], ['t', 'y']])
+    sels = [[n, ['l', [rng.randint(-dl[n], dl[n] - 1) for _ in range(ln)]]] for n in lists]
+    others = [n for n in names if n not in lists]
+    n1 = rng.choice(others)
+    sels.append([n1, ['i', rng.randint(-dl[n1], dl[n1] - 1)]])
+    if rng.random() < 0.3:
+        n2 = [n for n in others if n != n1][0]
+        sels.append([n2, _sel(rng, dl[n2], rng.choice(['int', 'slice']))])
+    rng.shuffle(sels)
+    return dict(spec=spec, sels=sels)
+
+
+def _legacy_case(rng):
+    """the string front end slice_dim(f, 'dim,start[,stop[,stride]]')"""
+    spec = pfile.gen_file(rng)
+    dl = {d[0]: d[1] for d in spec['dims']}
+    n = rng.choice(list(dl))
+    L = dl[n]
+    form = rng.choice(['i', 'ab', 'abs', 'abs', 'abs'])
+    if form == 'i':
+        a = rng.randint(0, max(L - 1, 0))
+        return dict(kind='legacy', spec=spec, text='%s,%d' % (n, a), sels=[[n, ['s', a, a + 1, 1]]])
+    a = rng.choice([None, rng.randint(-L - 1, L + 1)])
+    b = rng.choice([None, rng.randint(-L - 1, L + 1)])
+    if form == 'ab':
+        return dict(kind='legacy', spec=spec, text='%s,%s,%s' % (n, a, b), sels=[[n, ['s', a, b, 1]]])
+    st = rng.choice([1, 2, -1, -2, 3])
+    return dict(kind='legacy', spec=spec, text='%s,%s,%s,%d' % (n, a, b, st), sels=[[n, ['s', a, b, st]]])
+
+
+def _ioapi_case(rng):
+    from . import c10
+    return dict(kind='ioapi', sels=[], c10=dict(src=c10._src(rng), recipes=[
+        [rng.choice(['slice', 'slice2', 'slicerc', 'slicet', 'slicet'])] + [rng.randrange(1 << 20) for _ in range(6)]]))
+
+
 def gen(rng, tier):
     n = 400 if tier == 'quick' else 12000
-    return [_case(rng, malformed=(i % 10 == 9)) for i in range(n)]
+    out = [_case(rng, malformed=(i % 10 == 9)) for i in range(n)]
+    out += [_mixed_case(rng) for _ in range(n // 8)]
+    out += [_legacy_case(rng) for _ in range(n // 8)]
+    out += [_ioapi_case(rng) for _ in range(n // 8)]
+    return out
 
 
 def _py(sel):
@@ -93,7 +153,67 @@ def _py(sel):
     return list(sel[1])
 
 
+def _impl_ioapi(case):
+    """an IOAPI file sliced through ioapi_base.sliceDimensions: every variable against numpy.take per axis on the
+    source arrays (TFLAG included: the selected rows are kept)"""
+    import os
+    from . import c10
+    with lib.pnc_warnings():
+        f, path = c10.build(case['c10']['src'])
+        try:
+            op = c10.resolve(case['c10']['recipes'][0], f)
+            if op[0] != 'slice':
+                return dict(skip=True, op=op)
+            try:
+                with np.errstate(all='ignore'):
+                    g = c10.apply_op(f, op)
+            except Exception as e:
+                return dict(err=type(e).__name__, msg=str(e)[:100], op=op)
+            bad = None
+            kw = {d: w for d, w in op[1]}
+            for k, v in f.variables.items():
+                a = np.asarray(v[...])
+                for ax, d in enumerate(v.dimensions):
+                    if d in kw:
+                        w = kw[d]
+                        n = a.shape[ax]
+                        if w[0] == 'i':
+                            ix = [w[1] % n]
+                        elif w[0] == 'l':
+                            ix = [i % n for i in w[1]]
+                        elif w[0] == 's':
+                            ix = list(range(n))[slice(w[1], w[2])]
+                        else:
+                            ix = list(range(n))[slice(w[1], w[2], w[3])]
+                        a = np.take(a, ix, axis=ax)
+                if k not in g.variables:
+                    bad = 'variable %s disappeared' % k
+                    break
+                got = np.asarray(g.variables[k][...])
+                if k == 'TFLAG' and got.shape[1:2] != a.shape[1:2]:
+                    a = a[:, :got.shape[1]] if got.shape[1] <= a.shape[1] else a
+                if got.shape != a.shape or not np.array_equal(got, a):
+                    bad = 'variable %s after %s: shape %s, orthogonal selection gives shape %s%s' % (
+                        k, op, got.shape, a.shape, '' if got.shape != a.shape else ' with other values')
+                    break
+            return dict(op=op, bad=bad)
+        finally:
+            if path and os.path.exists(path):
+                os.remove(path)
+
+
 def impl(case):
+    if case.get('kind') == 'ioapi':
+        return _impl_ioapi(case)
+    if case.get('kind') == 'legacy':
+        from PseudoNetCDF.core._functions import slice_dim
+        f = pfile.build(case['spec'])
+        try:
+            with lib.pnc_warnings():
+                o = slice_dim(f, case['text'])
+            return dict(obs=pfile.observe(o))
+        except Exception as e:
+            return dict(err=type(e).__name__, msg=str(e)[:100])
     f = pfile.build(case['spec'])
     kw = {k: _py(s) for k, s in case['sels']}
     try:
@@ -114,12 +234,27 @@ def _tok(sel):
 
 
 def to_line(case, res):
+    if case.get('kind') == 'ioapi':
+        return 'c02 slice x:1:f - - - POINTS'
     d, v, a = pfile.encode(case['spec'])
     sels = ';'.join('%s=%s' % (k, _tok(s)) for k, s in case['sels']) or '-'
     return 'c02 slice %s %s %s %s POINTS' % (d, v, a, sels)
 
 
 def agree(case, out, res):
+    if case.get('kind') == 'ioapi':
+        return None                 # the IOAPI metadata model is C10's; here the data are judged by the oracle
+    if case.get('kind') == 'legacy' and 'obs' in res and out.startswith('ok '):
+        # the string front end adds a history attribute and copies through another path: compare dimensions and variables
+        a, b = pfile.parse_obs(out[3:]), pfile.parse_obs(res['obs'])
+        for k in a['dims']:
+            if a['dims'][k][0] != b['dims'].get(k, (None,))[0]:
+                return 'slice_dim: dimension %s model=%s impl=%s' % (k, a['dims'][k], b['dims'].get(k))
+        for k, v in a['vars'].items():
+            w = b['vars'].get(k)
+            if w is None or (v['dims'], v['shape'], v['cells']) != (w['dims'], w['shape'], w['cells']):
+                return 'slice_dim: variable %s model=%s impl=%s' % (k, (v['dims'], v['shape'], v['cells'][:60]), w and (w['dims'], w['shape'], w['cells'][:60]))
+        return None
     if 'err' in res:
         return None if out.startswith('err') else 'impl raised %s (%s), model %s' % (res['err'], res.get('msg'), out[:80])
     if not out.startswith('ok '):
@@ -129,6 +264,12 @@ def agree(case, out, res):
 
 def oracle(case, res):
     """independent statement of the property with numpy.take per axis / explicit zipping"""
+    if case.get('kind') == 'ioapi':
+        if res.get('skip'):
+            return None
+        if 'err' in res:
+            return None             # windows outside the wrapper's domain (C10 compares raise / no raise with its model)
+        return res.get('bad')
     spec = case['spec']
     dl = {d[0]: d[1] for d in spec['dims']}
     sels = dict((k, s) for k, s in case['sels'])
@@ -203,7 +344,7 @@ def oracle(case, res):
         wcells = lib.show_list(['_' if x == -1 else str(x) for x in np.asarray(want, dtype=object).ravel().tolist()])
         if g['cells'] != wcells:
             return 'variable %s holds %s, an orthogonal selection gives %s' % (v['name'], g['cells'][:120], wcells[:120])
-        if g['attrs'] != ('.'.join(sorted(v['attrs'])) or '-'):
+        if case.get('kind') != 'legacy' and g['attrs'] != ('.'.join(sorted(v['attrs'])) or '-'):
             return 'variable %s attributes %s, expected %s' % (v['name'], g['attrs'], sorted(v['attrs']))
     return None
 
@@ -213,6 +354,8 @@ def classify(case, failure, model_out):
 
 
 def nontrivial(case, res):
+    if case.get('kind') == 'ioapi':
+        return 'bad' in res
     sel = {k for k, s in case['sels']}
     has = [bool(set(v['dims']) & sel) for v in case['spec']['vars']]
     lists = [k for k, s in case['sels'] if s[0] == 'l']
@@ -222,6 +365,8 @@ def nontrivial(case, res):
 def distribution(recs):
     d = {}
     for r in recs:
+        if r['case'].get('kind'):
+            d[r['case']['kind']] = d.get(r['case']['kind'], 0) + 1
         for k, s in r['case']['sels']:
             d['sel_' + s[0]] = d.get('sel_' + s[0], 0) + 1
         if len([1 for k, s in r['case']['sels'] if s[0] == 'l']) >= 2:
